@@ -160,14 +160,28 @@ class Scenario:
         self._add_main_event()
 
     # ------------------------------------------------------------ running
-    def run(self, choices, K, after_step=None, cap=120):
+    def run(self, choices, K, after_step=None, cap=120, prefix=(), P=3):
+        """Delivers events until none is enabled. A *choice point* is a step
+        with at least two enabled events; the first len(prefix) choice points
+        are decided by the shard (buckets 0..P-2 = that index, bucket P-1 =
+        any index >= P-1, symbolic), the next ones up to K by the symbolic
+        choices, the following ones FIFO."""
         w = self.w
         k = 0
         while True:
             en = w.enabled()
             if not en:
                 break
-            if k < K:
+            if len(en) == 1:
+                c = 0
+            elif k < len(prefix):
+                b = prefix[k]
+                if b < P - 1 or len(en) <= P - 1:
+                    c = min(b, len(en) - 1)
+                else:
+                    c = (P - 1) + pick(choices[k], len(en) - (P - 1))
+                k += 1
+            elif k < K:
                 c = pick(choices[k], len(en))
                 k += 1
             else:
@@ -283,7 +297,7 @@ def drive(shard, total, rs, cs, rev, choices, token_kind="process"):
                 reqs[i] = rs[i]
     sc = Scenario(shape, codes, rev=rev, token=(shard.get("token_kind") or token_kind) if tokmask else None, total=total, reqs=reqs, resubmit=shard.get("resubmit"))
     sc.start()
-    sc.run(choices, K)
+    sc.run(choices, K, prefix=shard.get("prefix") or ())
     errs = sc.harness_errors()
     if errs:
         raise sched.HarnessError("; ".join(errs)[:500])
@@ -327,3 +341,21 @@ def ordering_ok(sc):
                     rt.note(f"FAIL: job {i} launched although dependency {u} failed")
                     ok = False
     return ok
+
+
+def with_prefixes(cond, depth=2, P=3):
+    """Splits a condition into P**depth shards on its first choice points"""
+    out = []
+
+    def rec(prefix):
+        if len(prefix) == depth:
+            c = dict(cond)
+            c["shard"] = dict(cond["shard"], prefix=list(prefix))
+            c["name"] = cond["name"] + "/p" + "".join(map(str, prefix))
+            out.append(c)
+            return
+        for b in range(P):
+            rec(prefix + [b])
+
+    rec([])
+    return out
